@@ -22,6 +22,7 @@ ops
   `print <tree> <np>`            → hex of the UTF-8 bytes of `RegexpString` (np = non-printable runes among those printed)
   `uncap <tree>`                 → `<tree of uncapture> hc=<hasCapture>`
   `simp <tree>`                  → `<tree of Simplify>`
+  `wf <tree>`                    → `print=<0|1> rep=<0|1>`: the tree has the shape the theorems assume of parser output
   `fa <tree> <orbits> <subject>` → spec only: the three span lists of the implementation must be admissible for `tree`
 -/
 def handle (line : String) : String :=
@@ -40,6 +41,10 @@ def handle (line : String) : String :=
     match parseTree t with
     | some r => answer (showTree (simplify r))
     | none => badCase "simp tree"
+  | ["wf", t] =>
+    match parseTree t with
+    | some r => answer s!"print={showBit (wfPrintB r)} rep={showBit (wfRepB r)}"
+    | none => badCase "wf tree"
   | ["fa", t, orb, subj] =>
     match parseTree t, parseOrbits orb, parseNats subj, parseFaImpl impl with
     | some r, some tab, some s, some (o, p, z) =>
